@@ -30,6 +30,7 @@ type c12Input struct {
 	Ops     []string `json:"ops,omitempty"` // instruction-wise hex of the script (for shrinking); Script wins if set
 	Base    int64    `json:"base"`
 	Limit   int64    `json:"limit"`             // datoshi
+	Scripts []string `json:"scripts,omitempty"` // kind "multi": SYSCALL k loads Scripts[k-1] on top (k odd: LoadScriptWithHash, one result; k even: LoadScriptWithFlags)
 	Methods []int    `json:"methods,omitempty"` // kind "methods" only: method offsets for IsScriptCorrect's bit field
 }
 
@@ -47,13 +48,14 @@ func (in c12Input) script() []byte {
 const c12TraceMax = 400
 
 type c12Obs struct {
-	Res      c13Result `json:"res"`
-	Refs     []int     `json:"refs,omitempty"`
-	EverCyc  bool      `json:"ever_cyclic"`
-	MaxDepth int       `json:"max_depth"`
-	MaxRefs  int       `json:"max_refs"`
-	Static   bool      `json:"static_ok"` // scparser.IsScriptCorrect(script, nil) == nil
-	F50Shape bool      `json:"f50_shape"` // a REMOVE on a Map entry whose value reaches the map itself was executed (finding F50)
+	Res       c13Result `json:"res"`
+	Refs      []int     `json:"refs,omitempty"`
+	EverCyc   bool      `json:"ever_cyclic"`
+	MaxDepth  int       `json:"max_depth"`
+	MaxRefs   int       `json:"max_refs"`
+	Static    bool      `json:"static_ok"`       // scparser.IsScriptCorrect(script, nil) == nil
+	Abandoned bool      `json:"abandoned_stack"` // an exception unwound a script context whose own evaluation stack was not empty (finding F57)
+	F50Shape  bool      `json:"f50_shape"`       // a REMOVE on a Map entry whose value reaches the map itself was executed (finding F50)
 }
 
 // c12Boundaries: instruction offsets of a linear decoding from offset 0 (nil if some instruction does not decode)
@@ -75,7 +77,10 @@ func c12Exec(co *caseOut, kind string, in c12Input) (c12Obs, bool) {
 	var obs c12Obs
 	bad := ""
 	var bounds map[int]bool
-	if p := catch(func() { obs.Static = scparser.IsScriptCorrect(script, nil) == nil }); p != "" {
+	multi := len(in.Scripts) > 0
+	if multi {
+		// several scripts: the static check of the entry script says nothing about the offsets executed in the others
+	} else if p := catch(func() { obs.Static = scparser.IsScriptCorrect(script, nil) == nil }); p != "" {
 		co.violation(kind, "scparser.IsScriptCorrect panicked: "+p, in, nil)
 		return obs, false
 	}
@@ -114,7 +119,26 @@ func c12Exec(co *caseOut, kind string, in c12Input) (c12Obs, bool) {
 			}
 		}
 	}
+	if multi {
+		v.SyscallHandler = c12Loader(in.Scripts)
+	}
+	var prevStacks map[*vm.Stack]bool
+	prevOp := opcode.NOP
 	v.SetOnExecHook(func(_ util.Uint160, off int, op opcode.Opcode) {
+		if multi { // did the previous instruction drop a script context by an exception while its stack still held items?
+			cur := map[*vm.Stack]bool{v.Estack(): true}
+			for _, c := range v.Istack() {
+				cur[c.Estack()] = true
+			}
+			if prevOp != opcode.RET {
+				for st := range prevStacks {
+					if !cur[st] && st.Len() > 0 {
+						obs.Abandoned = true
+					}
+				}
+			}
+			prevStacks, prevOp = cur, op
+		}
 		if len(obs.Refs) < c12TraceMax { // (since the repair F50 is in the tree the trace is compared through REMOVE cascades too)
 			obs.Refs = append(obs.Refs, v.VerifRefs())
 		}
@@ -169,7 +193,9 @@ func c12Run(co *caseOut, kind, tag string, in c12Input) {
 	script := in.script()
 	// VM reuse: the same script after Reset() on a VM that has just executed other scripts (see c13reuse.go) must show
 	// the same outcome and the same item-counter trace
-	if r3, ptags := c13ExecReused(script, in.Base, in.Limit, c13PickPreds(script, 0)); r3.Panic != "" {
+	if len(in.Scripts) > 0 {
+		// (several scripts: the reuse run is not repeated)
+	} else if r3, ptags := c13ExecReused(script, in.Base, in.Limit, c13PickPreds(script, 0)); r3.Panic != "" {
 		co.violation(kind, "Go panic escaped Run on a reused VM: "+r3.Panic, in, r3)
 		return
 	} else {
@@ -198,6 +224,17 @@ func c12Run(co *caseOut, kind, tag string, in c12Input) {
 	}
 	term := fmt.Sprintf("CTrace %s %d %d %d%%positive %s %s %s", coqBytes(script), in.Base, in.Limit*10000, obs.Res.Steps+16,
 		coqList(refs), obs.Res.coq(), coqBool(obs.Static))
+	if len(in.Scripts) > 0 {
+		ps := make([]string, len(in.Scripts))
+		for i, x := range in.Scripts {
+			ps[i] = coqBytes(unhx(x))
+		}
+		term = fmt.Sprintf("CMulti %s %s %d %d %d%%positive %s %s", coqBytes(script), coqList(ps), in.Base, in.Limit*10000, obs.Res.Steps+16,
+			coqList(refs), obs.Res.coq())
+		if obs.Abandoned {
+			out += "+abandoned"
+		}
+	}
 	if obs.Static {
 		out += "+static"
 	}
@@ -776,6 +813,10 @@ func runC12(args []string) error {
 			base, limit = 300000, int64(30*(20+r.intn(3000)))
 		}
 		c12Run(co, "deep", "gen", c12Input{Ops: c12HexOps(ops), Base: base, Limit: limit})
+	}
+	// several scripts loaded on top of each other, exceptions across script boundaries
+	for i := 0; i < n/2; i++ {
+		c12Run(co, "multi", "gen", c12GenMulti(r))
 	}
 	// arbitrary byte strings
 	all := c13AllOps()
